@@ -228,6 +228,10 @@ def run(ctx, spec):
                   "correlation_centroid:scale_invariance:extreme_factor", dict(w6, factor=ce2))
         ctx.close("corr_scale_ref", C.correlation_centroid(im[None].copy(), ref * cr, cthr, pad), got3, 1e-9 * max(nx, ny), "correlation_centroid:scale_invariance:reference", w6)
         others = [np.roll(ref, (int(rng.integers(-kmax, kmax + 1)), int(rng.integers(-kmax, kmax + 1))), axis=(0, 1)) * (i + 1.0) for i in range(int(rng.integers(1, 4)))]
+        if rng.random() < 0.5:
+            # neighbouring frames of very different brightness (a bright star next to a faint one, ratio up to 1e14): each frame's
+            # answer is its own
+            others = [o * float(10.0 ** int(rng.integers(-14, 15))) for o in others]
         cst = np.stack([im] + others)
         gall = C.correlation_centroid(cst.copy(), ref.copy(), cthr, pad)
         pall = np.concatenate([C.correlation_centroid(f[None].copy(), ref.copy(), cthr, pad) for f in cst], axis=1)
